@@ -8,6 +8,7 @@
 //!   append <idx>:<term>:<len> ...   | truncate <idx>:<term> | purge <idx>:<term>
 //!   vote <term>:<node>:<0|1>        | committed <idx>:<term> | committed none
 //!   peer <id> <port>
+//!   fault <n> | fault peer <n>      (the (n+1)-th record write to the Raft log / the peer log from now fails)
 //!   wopen | wappend <len>:<seed> | wreadall | wclose        (the bare WAL wrapper)
 //!   sm new | sm apply <idx>:<term>:<payload>[:r] ... | sm state      (C19: the state-machine adapter; payload =
 //!       b (blank) | m<id> (membership) | s<k>=<v> | g<k> | d<k> | x (a command the application rejects); `:r` = the
@@ -36,11 +37,46 @@ mod error {
 mod wal;
 mod raftshim;
 
+/// `WriteAheadLog` as the sliced store and peer code see it: the real one, plus a switch that makes a chosen later
+/// `append` fail (a write error of the engine underneath: disk full, I/O error)
+mod faultwal {
+    use crate::error::{OctopiiError, Result};
+    use bytes::Bytes;
+    use std::sync::atomic::{AtomicI64, Ordering};
+    pub struct WriteAheadLog {
+        inner: crate::wal::WriteAheadLog,
+        fail_in: AtomicI64,
+    }
+    impl WriteAheadLog {
+        pub async fn new(path: std::path::PathBuf, batch: usize, flush: std::time::Duration) -> Result<Self> {
+            Ok(WriteAheadLog { inner: crate::wal::WriteAheadLog::new(path, batch, flush).await?, fail_in: AtomicI64::new(-1) })
+        }
+        /// the `n`-th append from now (0 = the next one) fails
+        pub fn arm(&self, n: i64) {
+            self.fail_in.store(n, Ordering::SeqCst);
+        }
+        pub async fn append(&self, data: Bytes) -> Result<u64> {
+            let n = self.fail_in.load(Ordering::SeqCst);
+            if n == 0 {
+                self.fail_in.store(-1, Ordering::SeqCst);
+                return Err(OctopiiError::Wal("Failed to append: injected write failure".into()));
+            }
+            if n > 0 {
+                self.fail_in.store(n - 1, Ordering::SeqCst);
+            }
+            self.inner.append(data).await
+        }
+        pub async fn read_all(&self) -> Result<Vec<Bytes>> {
+            self.inner.read_all().await
+        }
+    }
+}
+
 mod store {
     use crate::error::OctopiiError;
     use crate::raftshim as openraft;
     use crate::raftshim::*;
-    use crate::wal::WriteAheadLog;
+    use crate::faultwal::WriteAheadLog;
     use bytes::Bytes;
     use serde::{Deserialize, Serialize};
     use std::collections::BTreeMap;
@@ -92,7 +128,7 @@ impl state_machine::StateMachineTrait for RecordingKv {
 
 mod peers {
     use crate::error::Result;
-    use crate::wal::WriteAheadLog;
+    use crate::faultwal::WriteAheadLog;
     use bytes::Bytes;
     use serde::{Deserialize, Serialize};
     use std::collections::HashMap;
@@ -128,7 +164,8 @@ fn show_lid(l: &Option<LogId<AppTypeConfig>>) -> String {
 
 struct Node {
     store: store::WalLogStore,
-    peer_wal: Arc<wal::WriteAheadLog>,
+    log_wal: Arc<faultwal::WriteAheadLog>,
+    peer_wal: Arc<faultwal::WriteAheadLog>,
     peers: std::collections::HashMap<u64, std::net::SocketAddr>,
 }
 
@@ -255,11 +292,11 @@ fn main() {
                 "open" => {
                     node = None;
                     let r: error::Result<Node> = tokio::block_on(async {
-                        let lw = Arc::new(wal::WriteAheadLog::new(datadir.join("openraft_log"), 0, zero).await?);
-                        let store = store::new_wal_log_store(lw).await?;
-                        let peer_wal = Arc::new(wal::WriteAheadLog::new(datadir.join("peer_addrs"), 0, zero).await?);
+                        let lw = Arc::new(faultwal::WriteAheadLog::new(datadir.join("openraft_log"), 0, zero).await?);
+                        let store = store::new_wal_log_store(lw.clone()).await?;
+                        let peer_wal = Arc::new(faultwal::WriteAheadLog::new(datadir.join("peer_addrs"), 0, zero).await?);
                         let peers = peers::load(&peer_wal).await;
-                        Ok(Node { store, peer_wal, peers })
+                        Ok(Node { store, log_wal: lw, peer_wal, peers })
                     });
                     match r {
                         Ok(n) => {
@@ -271,6 +308,12 @@ fn main() {
                 }
                 "close" => {
                     node = None;
+                    "ok".into()
+                }
+                "fault" => {
+                    // the (n+1)-th record write to the Raft log from now fails (`fault peer <n>`: to the peer-address log)
+                    let Some(n) = node.as_mut() else { return "err:closed".into() };
+                    if t[1] == "peer" { n.peer_wal.arm(t[2].parse().unwrap()) } else { n.log_wal.arm(t[1].parse().unwrap()) }
                     "ok".into()
                 }
                 "append" => {
